@@ -104,8 +104,42 @@ def gen_deep(tier, rng):
                 cases.append(" ; ".join([doms] + posts + [entry, "iv %d" % iv, "mem 1"]))
     return cases
 
+def gen_materialise(tier, rng):
+    """the memory budget is crossed while prepare_for_search MATERIALISES pending constraints (auxiliary variables of fluent
+    sub-expressions): 1 MB limit, N one-value filler variables (152 bytes each in the model's accounting) so that 0..400 bytes
+    are left, two or three small variables and one fluent constraint that needs 1-2 auxiliary variables; satisfiable by
+    construction.  Sub-command `api` (public API only).  The answer must be Ok or MemoryLimit, never a no-solution verdict
+    (repaired defect a284062)."""
+    cases = []
+    budget = 1 << 20
+    for _ in range(60 if tier == "quick" else 600):
+        k = rng.choice([2, 3])
+        small = 176                                  # int(0,3): 96 + 48 + 8*4
+        left = rng.choice([0, 8, 31, 32, 100, 151, 152, 200, 223, 224, 225, 300, 400])
+        n = (budget - k * small - left) // 152
+        a, b = n, n + 1
+        cons = rng.choice(["eq(mul(x%d,x%d),6)" % (a, b), "eq(add(mul(x%d,x%d),x%d),7)" % (a, b, a), "le(mul(x%d,2),add(x%d,3))" % (a, b),
+                           "eq(sub(mul(x%d,x%d),1),5)" % (a, b), "ge(mul(x%d,x%d),4)" % (a, b)])
+        entry = rng.choice(["solve", "solve", "minimize x%d" % a, "maximize x%d" % b, "enum"])
+        cases.append(" ; ".join(["cfg mem 1", "ints %d 0 0" % n] + ["int 0 3"] * k + ["new " + cons, entry]))
+    return cases
+def judge_materialise(case, impl, spec):
+    outs = [o.strip() for o in impl.split(";")]
+    if any(o.startswith("PANIC") for o in outs): return "panic: " + impl[:200]
+    last = outs[-1]
+    if case.rstrip().endswith("enum"):
+        return None          # enumerate cannot report an error: yielding nothing under a limit is allowed (only genuine solutions are required)
+    if last == "unsat" or last.startswith("err NoSolution"):
+        return "no-solution verdict for a satisfiable model whose memory budget was crossed while its constraints were materialised"
+    return None
+def split_none(model_line):
+    return None, "-", None
+
 nontrivial = lambda case, impl: impl.startswith("timeout") or impl.startswith("memory") or ("tfire" in case and "checks=0" not in impl)
+_mat = Family("budget_at_materialisation", "api", gen_materialise, split=split_none, nontrivial=lambda c, i: True, prop_judge=judge_materialise)
+_mat.takes_witnesses = False      # other grammar (sub-command api): the limits witnesses of known_findings.txt are not case lines for it
 FAMILIES = [
     Family("scripted_limits", "limits", gen, nontrivial=nontrivial, prop_judge=judge),
     Family("deep_stack_memory", "limits", gen_deep, nontrivial=nontrivial, prop_judge=judge),
+    _mat,
 ]
